@@ -51,7 +51,7 @@ func zzHandedOver(s *zzRecSeq, tx []byte) int {
 func ZZ_C11_reap() {
 	zzsym.FreezeClock()
 	e := zzNewEnv(1)
-	n := zzsym.Pick("ntx", 4)
+	n := zzsym.Pick("ntx", zzC11MaxTxs+1)
 	var pool [][]byte
 	for i := 0; i < n; i++ {
 		if zzsym.Bool("large") {
